@@ -407,7 +407,14 @@ def path_conditions(func_node: ast.AST, target: ast.AST) -> List[Tuple[ast.AST, 
                     conds.append((sib.test, False))
                 elif isinstance(sib, ast.If) and sib.orelse and always_exits(sib.orelse) and not always_exits(sib.body):
                     conds.append((sib.test, True))
-    return conds
+    # polarity-normal form: a condition is never a top-level `not X`; (not X, p) is reported as (X, not p), so the two
+    # spellings `if not c: A else: B` / `if c: B else: A` give identical path conditions
+    out = []
+    for t, p in conds:
+        while isinstance(t, ast.UnaryOp) and isinstance(t.op, ast.Not):
+            t, p = t.operand, not p
+        out.append((t, p))
+    return out
 
 
 def _path_to(root: ast.AST, target: ast.AST):
